@@ -138,31 +138,45 @@ def run(chk):
         T = flow.Terms(p, mc)
         sites = find_aggs(mc, "Ctap2Error", "UnsupportedOption")
         found = None
+        REQ = ("field", ("field", ("upvar", 1), "options"), "rk")
+        from_info = lambda x: has(x, lambda y: is_call(y, "Authenticator::get_info"))
+
+        def classify(c_):
+            """'req' — the request asks for a resident key; 'unsupported' — the authenticator's own options say no resident
+            keys (its `rk` read false, or there are no options at all and the default says false); None otherwise"""
+            sb, l, t = c_[0], c_[1], c_[2]
+            a_, pol = flow.bool_atom(t, l)
+            if a_ == REQ and pol is True:
+                return "req"
+            if pol is False and isinstance(a_, tuple) and len(a_) == 3 and a_[0] == "field" and a_[2] == "rk" and from_info(a_):
+                return "unsupported"
+            pt = flow.presence_test(t, l)
+            if pt is not None and pt[1] is False and from_info(pt[0]) and has(pt[0], lambda y: isinstance(y, tuple) and len(y) == 3 and y[0] == "field" and y[2] == "options"):
+                # no options reported: Options::default().rk is false (tables: get_info_option_defaults)
+                return "unsupported"
+            return None
         for bb, i, rv in sites:
-            conds = flow.conditions(p, mc, bb, T)
-            c_rk = any(t == ("field", ("field", ("upvar", 1), "options"), "rk") and flow.lab_true(l) for sb, l, t in conds)
-            c_info = any(t[0] == "unop" and t[1] == "Not" and has(t, lambda x: is_call(x, "Authenticator::get_info")) and has(t, lambda x: isinstance(x, tuple) and len(x) == 3 and x[0] == "field" and x[2] == "rk") and flow.lab_true(l) for sb, l, t in conds) or \
-                any(has(t, lambda x: is_call(x, "Authenticator::get_info")) and t[0] == "field" and t[2] == "rk" and flow.lab_false(l) for sb, l, t in conds)
-            if c_rk and c_info:
-                sb_rk = [sb for sb, l, t in conds if t == ("field", ("field", ("upvar", 1), "options"), "rk")][0]
-                sb_info = [sb for sb, l, t in conds if has(t, lambda x: is_call(x, "Authenticator::get_info")) and has(t, lambda x: isinstance(x, tuple) and len(x) == 3 and x[0] == "field" and x[2] == "rk")][-1]
-                found = (bb, conds, sb_rk, sb_info)
+            alts = normal.conditions_dnf(N, p, mc, bb, T, raw=True)
+            if alts and all(any(classify(c_) == "req" for c_ in alt) and any(classify(c_) == "unsupported" for c_ in alt) for alt in alts):
+                found = (bb, alts)
         chk.ob("R4 refusal", "R4|make_credential|rk-and-not-supported", found is not None, where(mc, found[0]) if found else where(mc),
-               "UnsupportedOption under: %s" % ([flow.cond_str(c)[-110:] for c in found[1][-2:]] if found else "no site conditioned on options.rk ∧ ¬get_info().options.rk"))
+               "UnsupportedOption under: %s" % ([[flow.term_str(c_[2])[-70:] + " " + str(c_[1]) for c_ in alt if classify(c_)] for alt in found[1]] if found else "no site conditioned on options.rk ∧ ¬get_info().options.rk"))
         gen = [bb for bb, t in mc.calls() if names.call_is(t, "SecretKey::random", "CredentialStore::save_credential", "random_vec")]
         if found:
-            # every path to creation leaves the refusal decision through one of its non-refusing edges
-            dec = [c for c in found[1] if c[0] in (found[2], found[3])]
-            pass_edges = []
-            for sb, l, t in dec:
-                taken = [sc for lab, sc in mc.succ_edges(sb) if flow.lab_holds(l, lab if lab != "otherwise" else "__other__") or (lab == "otherwise" and l[0] == "notin")]
-                for lab, sc in mc.succ_edges(sb):
-                    if sc not in taken:
-                        pass_edges.append((sb, sc))
-            reach_after = [g for g in gen if g in mc.reachable(found[0], follow_yield_drop=False)]
-            dom = flow.cut_by_edges(mc, 0, gen, pass_edges)
-            chk.ob("R4 refusal", "R4|make_credential|before-creation", dom and not reach_after and len(gen) >= 3, where(mc, dec[-1][0]),
-                   "key/id generation and save are reachable only through the non-refusing edges %s of the rk decision, and not from the refusal: %s" % (pass_edges, dom and not reach_after))
+            # once the refusing edges of the decision are taken nothing is created, and nothing was created before it
+            after_decision = set()
+            last = None
+            for alt in found[1]:
+                dec = [c_ for c_ in alt if classify(c_)]
+                sb, l2, t2, raw_l = dec[-1]
+                last = sb
+                for sc in set(mc.succs(sb)):
+                    if flow.edge_label(mc, sb, sc) == raw_l:
+                        after_decision |= mc.reachable(sc, follow_yield_drop=False)
+            reach_after = [g for g in gen if g in after_decision]
+            before = [g for g in gen if found[0] in mc.reachable(g, follow_yield_drop=False)]
+            chk.ob("R4 refusal", "R4|make_credential|before-creation", not reach_after and not before and len(gen) >= 3, where(mc, last if last is not None else found[0]),
+                   "key/id generation and save: not reachable once the refusing edges of the rk decision are taken (%s), and none of them precedes the refusal (%s)" % (not reach_after, not before))
         # R5
         from .common import saved_passkey
         rec, bb = saved_passkey(p, mc, T, N)
